@@ -22,7 +22,7 @@ REQ_CLASSES = ["YowNetworkLayer", "YowNoiseSegmentsLayer", "YowNoiseLayer", "Yow
                "YowLoggerLayer", "AxolotlControlLayer", "AxolotlSendLayer", "AxolotlReceivelayer",
                "YowGroupsProtocolLayer", "YowMediaProtocolLayer", "YowPrivacyProtocolLayer",
                "YowProfilesProtocolLayer"]
-REQ_VARS = ["layer", "axolotl", "groups", "media", "privacy", "profiles",
+REQ_VARS = ["layer", "axolotl", "groups", "media", "privacy", "profiles", "allLayers",
             "YOWSUP_PROTOCOL_LAYERS_BASIC", "YOWSUP_FULL_STACK", "YOWSUP_CORE_LAYERS",
             "YOWSUP_PROTOCOL_LAYERS_FULL"]
 
